@@ -322,6 +322,7 @@ def run(ctx):
     for (ax, d, line) in data["hw_lines"]:
         for n, res in enumerate(line):
             ctx.distinct.add(("hw", ax, n, d))
+    sweep_oracle(ctx, data)
     res = ctx.props("C07")
     if res.ok:
         qc.complex_props(ctx, "C07_complex")
@@ -347,33 +348,61 @@ def search(ctx, data, rows):
             if oracle_row(row) is None:
                 # Coq rejects the row but the numeric oracle accepts it: model/oracle disagree
                 ctx.broken.append(f"row {row['name']} fails row_ok in Coq but passes the numpy oracle")
-    # rotation pass-through deviations: replay each through the oracle
-    for (ax, n, d, ops) in data["sim_dev"]:
-        try:
-            U = seq_unitary(1, [tuple(o) for o in ops])
-            okk = qc.phase_equal(U, qc.rot_nd(ax, n, d))
-        except Exception:  # noqa
-            okk = False
-        if not okk:
-            ctx.violation(f"rot_{ax} {n} {d} is transpiled to a different operator (simulation mode)",
-                          dict(kind="row", gate="ROT_" + ax.upper(), n=n, d=d, ids=[2], hw=False, emitted=ops),
-                          key=f"C07:decomp:rot_{ax}:PSingle")
-            break
+
+
+def emitted_ok(ax, n, d, ops):
+    """Does the emitted list (possibly empty / several instructions) implement rot_ax(n*pi/2^d)?
+    Returns True / False / None (cannot decide: an instruction the translator did not understand)."""
+    if ops is None:
+        return False
+    for o in ops:
+        if o[0] not in ("rot", "crot"):
+            return None
+    try:
+        U = seq_unitary(1, [tuple(o) for o in ops])     # the operator of an empty list is the identity
+    except Exception:  # noqa
+        return None
+    return qc.phase_equal(U, qc.rot_nd(ax, n, d))
+
+
+def sweep_oracle(ctx, data):
+    """Oracle on every deviation the exhaustive rotation sweep recorded (both modes): the
+    concrete (axis, n, d, mode) with the emitted list is the replay."""
+    n_dev, undecided = 0, 0
+    reported = set()
+    for mode, key, hw in (("simulation", "sim_dev", False), ("hardware", "hw_dev", True)):
+        for (ax, n, d, ops) in data.get(key, []):
+            n_dev += 1
+            okk = emitted_ok(ax, n, d, ops)
+            if okk is None:
+                undecided += 1
+                continue
+            if not okk and (ax, hw) not in reported:
+                reported.add((ax, hw))
+                ctx.violation(f"rot_{ax} {n} {d} is transpiled to a different operator in {mode} mode "
+                              f"({len(ops)} instruction(s) emitted)",
+                              dict(kind="rot-sweep", axis=ax, n=n, d=d, hw=hw, emitted=ops),
+                              key=f"C07:decomp:rot_{ax}:PSingle")
     for (ax, d, line) in data["hw_lines"]:
         for n, out in enumerate(line):
             if out is None:
-                ctx.violation(f"rot_{ax} {n} {d} is rejected in hardware mode although d <= 4",
-                              dict(kind="hw-rot", axis=ax, n=n, d=d, emitted=None), key=f"C07:hw-rot:{ax}")
-                break
-            if not qc.phase_equal(qc.rot_nd(ax, out[0], out[1]), qc.rot_nd(ax, n, d)):
+                if ("rej", ax) not in reported and not any(t[0] == ax and t[1] == n and t[2] == d for t in data.get("hw_dev", [])):
+                    reported.add(("rej", ax))
+                    ctx.violation(f"rot_{ax} {n} {d} is rejected in hardware mode although d <= 4",
+                                  dict(kind="hw-rot", axis=ax, n=n, d=d, emitted=None), key=f"C07:hw-rot:{ax}")
+                continue
+            if not qc.phase_equal(qc.rot_nd(ax, out[0], out[1]), qc.rot_nd(ax, n, d)) and (ax, True) not in reported:
+                reported.add((ax, True))
                 ctx.violation(f"hardware-mode angle normalisation changes the rotation: rot_{ax} {n} {d} -> {out[0]} {out[1]}",
                               dict(kind="hw-rot", axis=ax, n=n, d=d, emitted=out), key=f"C07:hw-rot:{ax}")
-                break
     for (ax, n, d, out) in data["hw_acc"]:
-        if not qc.phase_equal(qc.rot_nd(ax, out[0], out[1]), qc.rot_nd(ax, n, d)):
+        if not qc.phase_equal(qc.rot_nd(ax, out[0], out[1]), qc.rot_nd(ax, n, d)) and ("acc", ax) not in reported:
+            reported.add(("acc", ax))
             ctx.violation(f"hardware mode accepts rot_{ax} {n} {d} and emits a different angle {out}",
                           dict(kind="hw-rot", axis=ax, n=n, d=d, emitted=out), key=f"C07:hw-rot:{ax}")
-            break
+    ctx.coverage["rotation_sweep_deviations"] = n_dev
+    if undecided:
+        ctx.broken.append(f"rotation sweep: {undecided} outputs contain instructions the translator does not understand")
 
 
 def replay(ctx, path):
@@ -383,7 +412,21 @@ def replay(ctx, path):
         # the replay names a broken obligation, not an input: re-run the whole check
         print("replay: no concrete input recorded (broken obligation); running the full check")
         return run(ctx)
-    if rec.get("kind") == "hw-rot":
+    if rec.get("kind") == "rot-sweep":
+        import nv_decomp as nd
+        ns = nd.load(ctx.repo)
+        ax, n, d, hw = rec["axis"], rec["n"], rec["d"], rec["hw"]
+        reg = nd.qreg(ns, 0)
+        try:
+            ops = nd.safe_resolve(ns, nd.transpile(ns, [ns.core.SetInstruction(reg=reg, imm=ns.Immediate(2)),
+                                                        ns.rot[ax](reg=reg, imm0=ns.Immediate(n), imm1=ns.Immediate(d))], hw), {2: 0})
+        except Exception as e:  # noqa
+            ops = None
+        good = emitted_ok(ax, n, d, ops)
+        print("replay: emitted", ops, "ok" if good else "FAILS")
+        if not good:
+            ctx.violation("rotation is transpiled to a different operator", rec, key=f"C07:decomp:rot_{ax}:PSingle")
+    elif rec.get("kind") == "hw-rot":
         import nv_decomp as nd
         ns = nd.load(ctx.repo)
         ax, n, d = rec["axis"], rec["n"], rec["d"]
